@@ -1,4 +1,5 @@
 import PyGam.Proofs.Loop
+import PyGam.Gen.Tables
 /-!
 # C20 — the optimiser loop terminates, stops at `tol` and logs one record per iteration
 
@@ -347,5 +348,28 @@ example :
 /-- the selection hypothesis of `deviance_logged_is_entering_coef` holds for the default list -/
 example : (([.deviance, .diffs].map (builtin exObs)).filter (fun cb => cb.name == "deviance")).length = 1 := by
   rfl
+
+/-! ### tie to the source by translation -/
+
+/-- the default `callbacks=` of every class constructor in the source is the model's `defaultCallbacks` -/
+theorem gen_default_callbacks :
+    ∀ cls ∈ ModelClass.all,
+      Gen.classCallbacks.lookup cls.name = some (some ((defaultCallbacks cls).map Builtin.name)) := by
+  decide +kernel
+
+/-- the loop locals a hook may name are the ones of `_pirls` in the source -/
+theorem gen_hook_variables :
+    ∀ s e, Gen.pirlsStartVars = some s → Gen.pirlsEndOnlyVars = some e →
+      ((startVars true).all (· ∈ s) && s.all (· ∈ startVars true)
+        && endOnlyVars.all (· ∈ e) && e.all (· ∈ endOnlyVars)) = true := by
+  intro s e hs he
+  have h1 : Gen.pirlsStartVars = some ["C", "Dinv", "E", "P", "S", "W", "X", "Y", "_", "gam", "lp", "m", "mask",
+    "min_n_m", "modelmat", "mu", "n", "pseudo_data", "weights", "y"] := rfl
+  have h2 : Gen.pirlsEndOnlyVars = some ["B", "Q", "R", "U", "U1", "Vt", "WB", "coef_new", "d", "diff"] := rfl
+  rw [h1] at hs; rw [h2] at he; cases hs; cases he
+  decide
+
+/-- the callback registry of the source is the one modelled by `Builtin` -/
+theorem gen_callback_names : Gen.callbackNames = some ["accuracy", "coef", "deviance", "diffs"] := by decide
 
 end PyGam.C20
